@@ -65,10 +65,106 @@ CLAIMS.update({
         'in the model: oracle only), every float-level claim. Two known findings (negligible leading coefficient).',
    ref='6 / C15'),
 })
-PENDING = set()   # claimed once the theorems are merged
+CLAIMS.update({
+ 'C01': dict(
+   text='Proved (lawful ordered field / R): the per-segment winding contribution of the model (winding_inner for lines, quadratics and cubics: monotone pieces from the '
+        'extrema, half-open y rule, side test at the solved parameter) equals the signed crossing count of a rightward ray for points off the curve, '
+        'contributions are additive over split pieces, reversing a segment negates it, the path winding is the sum over segments incl. the implicit closing '
+        'line, contains = winding != 0, affine maps with det>0 keep it / det<0 negate it, and the rectangle/triangle closed forms. The solver hypothesis '
+        'is the C15 root-set theorem. Implementation decided against an exact rational winding oracle (Sturm isolation of the ray crossings) on '
+        'polygons, curves, self-intersecting and multi-contour paths, plus correspondence with the exact model.',
+   note='Jordan-curve topology is not formalised: "winding number" is the crossing sum. One known finding (degree-raised cubic: root cause in solve_cubic, C15). '
+        'Points closer than the stated band to the boundary are excluded as in the property.',
+   ref='6 / C01'),
+ 'C03': dict(
+   text='Proved: the three Gauss-Legendre tables of the model (8/16/24 points, regenerated from common.rs on every run and re-proved equal: GenEquivGL) are symmetric, '
+        'weights sum to 2 and integrate every monomial up to degree 2n-1 to within 1e-15 (exact rational arithmetic on the decimal literals, decide +kernel); '
+        'Line/quad closed forms, arclen additivity identities and subsegment/inv_arclen algebra on the model. Implementation decided against exact arc lengths '
+        '(closed form for lines/quads in high precision, 1e-12 adaptive quadrature with a certified bound for cubics), inverse arc length round trip, '
+        'perimeter additivity; correspondence with the Float model.',
+   note='The error ESTIMATE heuristics of arclen_rec are not proved sufficient (analysis over all cubics is out of reach): decided by oracle comparison. '
+        'ln/sqrt/hypot are libm calls, trusted to 1 ulp.',
+   ref='6 / C03'),
+ 'C05': dict(
+   text='Proved (lawful ordered field; R with real sqrt/hypot): flattening emits MoveTo/LineTo/ClosePath only, keeps every sub-path start, segment end point and '
+        'ClosePath exactly (structure theorem for every element list), the number of pieces of a quadratic follows the parabola-integral count, the vertices lie '
+        'on the source curve at increasing parameters, the sagitta bound of one parabola piece, scale covariance of the subdivision count; cubic -> quadratic '
+        'budget split. Implementation decided against an exact distance oracle (every chord vs. the exact curve, Bernstein-certified deviation bound <= tolerance) '
+        'and compared with the exact/Float models.',
+   note='The approx_parabola_integral / inverse are rational approximations: the proved bound is for the model\'s parametrisation, the end-to-end tolerance for all '
+        'quadratics is decided by the oracle. glibc hypot is not correctly rounded: near-duplicate end vertices are deduplicated before comparison.',
+   ref='6 / C05'),
+ 'C08': dict(
+   text='Proved (lawful ordered field, quadratic-solver spec discharged over R by the C15 theorems): extrema() returns exactly the interior parameters where a '
+        'coordinate derivative vanishes, sorted, at most 4; extrema_ranges partitions [0,1]; on each range both coordinates are monotone; bounding_box contains '
+        'eval(t) for every t in [0,1] and is tight (each side attained); control box contains the bounding box; union over segments for paths. '
+        'Implementation decided against exact rational extrema and bounding boxes; correspondence with the exact model on dyadic grids.',
+   note='Tightness for cubics whose derivative has a negligible leading coefficient inherits the C15 known finding (box may miss by the solver error). IEEE compared with tolerance.',
+   ref='6 / C08'),
+ 'C09': dict(
+   text='Proved (lawful ordered field / R): Line::nearest is the exact projection (clamped), distance_sq is the squared distance at the returned t, the returned t is in '
+        '[0,1]; for quadratics the candidate set (roots of the cubic orthogonality condition + end points) contains the true minimiser, hence nearest is the minimum '
+        'over the curve given the solver spec; cubic nearest = minimum over the to_quads pieces with the error budget of C17; PathSeg dispatch. Implementation '
+        'decided against an exact distance oracle (Sturm-isolated critical points of the squared distance) and model correspondence.',
+   note='One known finding (straight curves: collinear control polygon sends the cubic solver into the negligible-leading-coefficient regime). ToQuadsWithin hypothesis '
+        'is discharged by C17 toQuads_error_bound for the model.',
+   ref='6 / C09'),
+ 'C10': dict(
+   text='Proved: outline structure of Rect, RoundedRect, Circle, Ellipse, Arc, CircleSegment, Triangle, Line (element kinds, counts, closedness, start points) for every '
+        'input; quarter/arc segment control points lie on the tangent lines with the 4/3 tan(theta/4) arm; the radial error of one arc piece is bounded by the '
+        'closed-form (1-cos)^3-type bound used to choose n, so every outline point is within tolerance of the ideal circle (circle_within_tolerance) and arcs '
+        'alike; ellipse = affine image of the unit circle outline. Implementation decided against exact geometry oracles (distance of outline samples from the '
+        'ideal curve, containment/area/perimeter cross checks) and Float-model correspondence.',
+   note='sin/cos/tan are specified by their defining identities over R (LawfulTrig hypotheses), not computed. Arc from SVG parameters and Affine*Arc are checked by oracle only.',
+   ref='6 / C10'),
+ 'C11': dict(
+   text='Proved (lawful ordered field / R): area, perimeter, winding, contains and bounding_box closed forms of Rect, Triangle, RoundedRect, Circle, CircleSegment, Ellipse '
+        'agree with each other and with the definitions (e.g. winding != 0 <-> strictly inside for points off the boundary; rounded-rect corner quadrant test = '
+        'distance test; triangle winding sign = orientation; areas scale with det under affine maps; bounding boxes contain the shape). Implementation decided '
+        'against exact rational predicates and against its own outline (C10) through the exact winding/area oracles.',
+   note='Ellipse perimeter (AGM series) is compared with a high-precision quadrature, not proved. pi is uninterpreted in area formulas.',
+   ref='6 / C11'),
+ 'C13': dict(
+   text='Dash iterator modelled state for state (NeedInput/ToStash/Working/FromStash, stash, close-path handling, phase reset) and compared element for element with '
+        'the crate in Float arithmetic; oracle: total dash length = pattern coverage of each sub-path arclen, every dash lies on the source, phase resets per sub-path, '
+        'closed sub-paths join first and last dash. Kernel definitions used (subsegment, eval) regenerated and re-proved (GenEquiv). Model theorems: dash_impl panics '
+        'iff the pattern is empty; further iterator invariants are being proved.',
+   note='Order of emitted dashes within a closed sub-path is by design (stash first). inv_arclen is numerical: dash end points compared to 1e-6 of the sub-path length.',
+   ref='6 / C13'),
+ 'C14': dict(
+   text='Proved: arclen_rec runs at most 2^21-1 times (cost model tied to the crate\'s work counter by exact correspondence), ITP loops run at most nmax+1 times, '
+        'solver/to_quads outputs have bounded length, the SVG parser never panics and its loop consumes a byte per iteration (fuel irrelevant), dash_impl panics iff '
+        'the pattern is empty, fit_inside fuel is irrelevant. Decided on the implementation built with add-only work counters (--cfg kurbo_verif): no panic, only '
+        'finite numbers, work <= 1e7 on exhaustive degenerate paths x all ops x join/cap/dash combinations and every SVG string to length 3/4 over an 18-symbol alphabet.',
+   note='Termination of fit_to_bezpath_rec/opt and NaN-freedom of the stroker rest on floating-point granularity and are decided by budgeted replay only, not by a theorem. '
+        'One known finding (fit_to_bezpath_opt unwrap on closed-loop cubics); three defects repaired.',
+   ref='6 / C14'),
+ 'C16': dict(
+   text='Proved about the byte-level model of SvgLexer/from_svg (bit-identical to the crate on every string to length 3/4 over 18 symbols and random strings): lexer '
+        'index invariants, no panic on any byte string, totality with irrelevant fuel, exact error kinds, the number grammar (getNumber_spec for every valid token, '
+        'malformed shapes rejected), one step lemma per command letter incl. relative forms, implicit repetition, smooth-curve reflection. Implementation oracle: '
+        'write/parse round trip, relative = absolute, implicit = explicit.',
+   note='Decimal -> f64 conversion (parse::<f64>) and arc geometry are outside the theorems (arc flag/number lexing is inside). Full parse-render induction over command lists is not proved; step lemmas + composed instance.',
+   ref='6 / C16'),
+ 'C17': dict(
+   text='Proved (lawful ordered field; R for sqrt): to_quads piece count formula and continuity (consecutive pieces share end points, first/last = cubic end points), '
+        'the error of each quadratic piece is bounded by the sqrt(3)/36 * |third difference| / n^3 bound (cubic_s_bound tight), hence within accuracy; approx_spline '
+        'end points and implied on-curve points, fit_inside soundness, cubics_to_quadratic_splines same length for all. Implementation decided against exact '
+        'Hausdorff-type deviation oracles and model correspondence.',
+   note='The to_quads bound is for corresponding parameters (upper bound of Hausdorff distance). Float rounding of n (ceil of a power 1/6) compared at tolerance.',
+   ref='6 / C17'),
+ 'C19': dict(
+   text='Proved: the table of define_float_funcs! rows extracted from common.rs on every run equals the pinned table (GenEquivFF), every std method is mapped to the libm '
+        'function of the same mathematical name and arity for f64 and f32, signum body as specified. Decided on the implementation: the crate is built with std and with '
+        'libm (no_std) and both run the whole cross-property corpus; results must agree to 1e-9 relative (structure exactly).',
+   note='libm vs. std accuracy (each within a few ulp) is trusted; ill-conditioned outputs (winding on the boundary, radius-scaled arcs) compared at documented tolerances.',
+   ref='6 / C19'),
+})
+PENDING = set()
 for _p in PENDING:
     CLAIMS.pop(_p, None)
-NA = {}
+NA = {'C04': 'stroke outline region: machinery under construction (see DESIGN.md section 10); until it runs clean it is not claimed',
+      'C18': 'fit/offset/simplify proximity: machinery under construction (see DESIGN.md section 10); until it runs clean it is not claimed'}
 def main():
     ids = ['C%02d' % i for i in range(1, 21)]
     checks = []
@@ -83,7 +179,7 @@ def main():
     na = [dict(property_id=p, reason=NA.get(p, 'not yet built in this round (work in progress; see DESIGN.md section 10)')) for p in ids if p not in CLAIMS]
     m = dict(version=1, setup_cmd='./setup',
              hooks=dict(guard='kurbo_verif', enable='RUSTFLAGS="--cfg kurbo_verif" (set by ./check when it builds the harness for C14)',
-                        baseline_off_cmd='cd /repo && cargo test --workspace --no-fail-fast --offline', source_commits=[], add_only=True),
+                        baseline_off_cmd='cd /repo && cargo test --workspace --no-fail-fast --offline', source_commits=['f08e0b7', '7ed43b3'], add_only=True),
              engines=[dict(name='lean-proofs', path='lean/Proofs', serves_properties=sorted(CLAIMS), kind_free_text='Lean 4 + Mathlib theorems about the executable model'),
                       dict(name='rs2lean', path='tools/rs2lean.py', serves_properties=sorted(CLAIMS), kind_free_text='Rust-subset -> Lean translator; output re-proved equal to the model on every run'),
                       dict(name='kmodel', path='lean/Main.lean', serves_properties=sorted(CLAIMS), kind_free_text='line-protocol driver of the Lean model (exact Rat / Float)'),
